@@ -1,20 +1,29 @@
 #!/bin/bash
 # Must-fail corpus: every confirmed seeded change must flip a named obligation of its property's check.
 # Applies each patch to /repo, runs the quick check, reverts immediately. Requires a clean /repo work tree.
-# Usage: tools/selftest.sh [id_mk ...]   -> writes /verif/seeded/detection.json
+# Usage: tools/selftest.sh [id_mk ...]   -> merges results into /verif/seeded/detection.json
 cd /verif || exit 2
 if [ -n "$(git -C /repo status --porcelain --untracked-files=no)" ]; then echo "selftest: /repo has uncommitted changes to tracked files"; exit 2; fi
 sel="$@"; [ -z "$sel" ] && sel=$(ls seeded | grep -E '^C[0-9]+_m[0-9]+$')
-res="{"
 miss=0
+tmp=$(mktemp)
 for s in $sel; do
   p=${s%%_*}
-  if ! git -C /repo apply --check /verif/seeded/$s/patch.diff 2>/dev/null; then echo "$s: patch does not apply"; res="$res\"$s\": \"patch does not apply\","; continue; fi
+  if ! git -C /repo apply --check /verif/seeded/$s/patch.diff 2>/dev/null; then echo "$s: patch does not apply"; echo "$s|patch does not apply" >> $tmp; continue; fi
   git -C /repo apply /verif/seeded/$s/patch.diff
   out=$(bin/gvc check -prop $p 2>&1); rc=$?
   git -C /repo checkout -- .
-  obl=$(echo "$out" | grep -o 'obligation=[^ ]*' | head -3 | sed 's/obligation=//; s/.*:://' | tr '\n' ' ')
-  if [ $rc -eq 1 ]; then echo "$s: DETECTED ($obl)"; res="$res\"$s\": \"detected: $obl\","; else echo "$s: MISSED (exit $rc)"; res="$res\"$s\": \"missed\","; miss=$((miss+1)); fi
+  obl=$(echo "$out" | grep '^VIOLATION' | head -3 | sed -E 's/.*obligation=([^ ]*) reason="[^"]*\(([a-z]+)\)[^"]*"(.*)$/\1 [\2]\3/; s/^[^ ]*:://' | tr '\n' ';')
+  if [ $rc -eq 1 ]; then echo "$s: DETECTED ($obl)"; echo "$s|detected: $obl" >> $tmp; else echo "$s: MISSED (exit $rc)"; echo "$s|missed" >> $tmp; miss=$((miss+1)); fi
 done
-echo "${res%,}}" > seeded/detection.json
+python3 - "$tmp" <<'E'
+import json, sys, os
+p = '/verif/seeded/detection.json'
+d = json.load(open(p)) if os.path.exists(p) else {}
+for l in open(sys.argv[1]):
+    k, v = l.rstrip('\n').split('|', 1)
+    d[k] = v
+json.dump(dict(sorted(d.items())), open(p, 'w'), indent=1)
+E
+rm -f $tmp
 echo "selftest: $miss missed"
